@@ -378,7 +378,14 @@ def stepOp (k : Nat) (st : St) (op : Op) (out : Sexp) : Option (Sexp × Bool × 
             else match st.best with
               | none => "-"
               | some old => if bi == old || ltObj bi old then "-" else "not-monotone"
-        some (model, Sexp.beq model out, cls, { st with best := b, shownB := shown })
+        -- K: which of several equally good candidates of the population is remembered is not part of the
+        -- property (`min_by_key` takes the first): when the model replaces the best, any member of the population
+        -- with the same objective value agrees; when it keeps the old best, so must the implementation.
+        let agree := Sexp.beq model out ||
+          (match pm.best, b with
+           | some mb, some bi => pm.best != st.best && p.contains bi && bi.obj.isSome && bi.obj == mb.obj
+           | _, _ => false)
+        some (model, agree, cls, { st with best := b, shownB := shown })
   | .upd c =>
     match bestUpdate st.best c with
     | none => some (.atom "panic", Sexp.beq out (.atom "panic"), "-", st)
@@ -400,6 +407,20 @@ def stepOp (k : Nat) (st : St) (op : Op) (out : Sexp) : Option (Sexp × Bool × 
         | _, _ => none
       | _ => some (model, false, "panic", st)
   | .arch p =>
+    -- An unevaluated individual has no objective value, so "the k best" is not defined for it: such inputs lie
+    -- outside the property. Whether the sort happens to look at its key (and panics) is an implementation detail
+    -- (a single element is never compared by `sort_unstable_by_key`, a sorted insertion may look at it): there a panic
+    -- of either side is accepted, and nothing is demanded of the result.
+    let uneval := (st.arch ++ p).any (fun i => i.obj.isNone)
+    if uneval then
+      -- a panic ends the history; otherwise it continues from the implementation's own archive
+      match out with
+      | .list (.atom "arch" :: is) =>
+        match is.mapM ind? with
+        | some ai => some (out, true, "-", { st with arch := ai, shownA := st.shownA ++ p })
+        | none => none
+      | _ => some (.atom "panic", Sexp.beq out (.atom "panic"), "-", st)
+    else
     match archiveUpdate st.arch p k with
     | none => some (.atom "panic", Sexp.beq out (.atom "panic"), "-", st)
     | some a' =>
